@@ -17,8 +17,8 @@ def sub_runs(sub, runs_by_tier):
 
 
 POLICY = {
-    "quick": [("full-dbg", ["--depth", "6"]), ("full-rel", ["--depth", "7"]), ("full-rel", ["--depth", "5", "--max-live", "4", "--max-objects", "5", "--sizes", "0,2,4,5"])],
-    "thorough": [("full-rel", ["--depth", "10", "--max-seconds", "900"]), ("full-rel", ["--depth", "0", "--max-live", "2", "--max-objects", "3", "--sizes", "0,3,5", "--percents", "0,1,2,4,6", "--max-seconds", "900"]), ("full-rel", ["--depth", "0", "--max-live", "3", "--max-objects", "4", "--sizes", "0,2,5", "--percents", "0,2,6", "--max-seconds", "900"]), ("full-dbg", ["--depth", "6"])],
+    "quick": [("full-dbg", ["--depth", "6"]), ("full-rel", ["--depth", "7"]), ("nofin-rel", ["--depth", "6"]), ("full-rel", ["--depth", "5", "--max-live", "4", "--max-objects", "5", "--sizes", "0,2,4,5"])],
+    "thorough": [("full-rel", ["--depth", "10", "--max-seconds", "900"]), ("nofin-rel", ["--depth", "9", "--max-seconds", "600"]), ("full-rel", ["--depth", "0", "--max-live", "2", "--max-objects", "3", "--sizes", "0,3,5", "--percents", "0,1,2,4,6", "--max-seconds", "900"]), ("full-rel", ["--depth", "0", "--max-live", "3", "--max-objects", "4", "--sizes", "0,2,5", "--percents", "0,2,6", "--max-seconds", "900"]), ("full-dbg", ["--depth", "6"])],
 }
 
 GRID = {
